@@ -283,9 +283,11 @@ func produce(emit func(Case)) {
 					if e != absent {
 						sl[1] = e
 					}
+					fs := fSlice(sl...)
+					fs.NoStart = s == absent && len(sl) > 0 // `[:e:t]`: only the text form can say so
 					for _, a := range arrays {
-						add(Path{fSlice(sl...)}, a, "box_last", boxReps)
-						add(Path{fSlice(sl...), fChild("x")}, a, "box_inner", boxReps)
+						add(Path{fs}, a, "box_last", boxReps)
+						add(Path{fs, fChild("x")}, a, "box_inner", boxReps)
 					}
 				}
 			}
@@ -465,7 +467,7 @@ func (w *worker) runC05(c *Case, pw, dw string) error {
 	if c.src == "replay" && c.p.endsInDescent() {
 		reps = []Rep{repSimple, repGen, repUser} // (a trailing descent on typed data is not modelled)
 	}
-	qs := []query{{"spec", "any.map", "-"}}
+	qs := []query{{"spec", "any.map", "-"}, {"specrfc", "any.map", "-"}}
 	for _, r := range reps {
 		qs = append(qs, query{"get", r.String(), pinnedFlags}, query{"gets", r.String(), pinnedFlags})
 	}
@@ -473,9 +475,10 @@ func (w *worker) runC05(c *Case, pw, dw string) error {
 	if err != nil {
 		return err
 	}
-	specVals := valuesOf(splitVals(ans[0]))
+	specVals := valuesOf(splitVals(ans[0])) // the denotation in the code's reading of slices
+	rfcVals := valuesOf(splitVals(ans[1]))  // the documented denotation (RFC 9535 slices): the oracle
 	if n := atomic.AddInt64(&sampleCounter, 1); n%9973 == 1 {
-		rep.Sample(map[string]any{"path": c.p.String(), "data": dw, "spec": ans[0], "model_get": ans[1], "impl_get": goGet(x, simple).String()})
+		rep.Sample(map[string]any{"path": c.p.String(), "data": dw, "spec": ans[1], "model_get": ans[2], "impl_get": goGet(x, simple).String()})
 	}
 	rep.Count(fmt.Sprintf("results.%d", min(len(specVals), 4)), 1)
 	for ri, r := range reps {
@@ -485,9 +488,10 @@ func (w *worker) runC05(c *Case, pw, dw string) error {
 		}
 		ord := ordSimple || r.orderedObjects()
 		g := goGet(x, data)
-		model := splitVals(ans[1+2*ri])
-		skel := valuesOf(splitVals(ans[2+2*ri]))
-		desc := map[string]any{"rep": r.String(), "impl": g.String(), "spec": strings.Join(specVals, ";"), "model": ans[1+2*ri]}
+		model := splitVals(ans[2+2*ri])
+		skel := valuesOf(splitVals(ans[3+2*ri]))
+		desc := map[string]any{"rep": r.String(), "impl": g.String(), "spec": strings.Join(rfcVals, ";"),
+			"spec_code_reading": strings.Join(specVals, ";"), "model": ans[2+2*ri]}
 		rep.Count("runs.get."+r.String(), 1)
 		if !sameList(model, skel) && !r.typed() {
 			finding("disagreement", "machine-skeleton:"+r.String(), "the Get machine and the skeleton denotation differ", c, desc)
@@ -512,9 +516,21 @@ func (w *worker) runC05(c *Case, pw, dw string) error {
 		if !tie {
 			finding("disagreement", "model-get:"+r.String(), "Go Get and the model of Get differ", c, desc)
 		}
-		// the oracle: Get returns exactly what the path denotes; in array order where the order is defined
-		// (a path ending in a bare descent fixes the set of nodes only)
-		if same(g.vals, specVals, ord && ordSimple && !c.p.endsInDescent()) {
+		// the oracle: Get returns exactly what the path denotes by the DOCUMENTED semantics (evalRfc: slices per
+		// RFC 9535); in array order where the order is defined (a path ending in a bare descent fixes the set
+		// of nodes only)
+		listed := ord && ordSimple && !c.p.endsInDescent()
+		if same(g.vals, rfcVals, listed) {
+			continue
+		}
+		if same(g.vals, specVals, listed) {
+			// Get implements the code's reading of the slice (Spec.eval), which differs from the documented one
+			// only for negative-step slices (evalRfc_eq_eval): exactly that known finding, if the path has one
+			if c.p.hasNegStep() && tie {
+				knownFinding("C05-slice-negative-step", "get-denotation:"+r.String()+":negative-step", "Get does not return what the path denotes (negative-step slice: default or out-of-range bounds)", c, desc)
+			} else {
+				finding("violation", "get-denotation:"+r.String(), "Get does not return what the path denotes", c, desc)
+			}
 			continue
 		}
 		if !tie {
@@ -1025,7 +1041,7 @@ type caseJSON struct {
 }
 
 func fragToJSON(f Frag) fragJSON {
-	fj := fragJSON{Kind: string(f.Kind), Key: f.Key, N: f.N, S: f.S, Scr: f.Scr.seal()}
+	fj := fragJSON{Kind: string(f.Kind), Key: f.Key, N: f.N, S: f.S, Scr: f.Scr.seal(), NoStart: f.NoStart}
 	for _, m := range f.Mem {
 		fj.Mem = append(fj.Mem, m)
 	}
@@ -1036,7 +1052,7 @@ func fragFromJSON(fj fragJSON) (Frag, error) {
 	if len(fj.Kind) != 1 {
 		return Frag{}, fmt.Errorf("bad fragment kind %q", fj.Kind)
 	}
-	f := Frag{Kind: fj.Kind[0], Key: fj.Key, N: fj.N, S: fj.S}
+	f := Frag{Kind: fj.Kind[0], Key: fj.Key, N: fj.N, S: fj.S, NoStart: fj.NoStart}
 	for _, m := range fj.Mem {
 		switch t := m.(type) {
 		case string:
